@@ -157,6 +157,22 @@ fn main() {
                     Err(_) => writeln!(out, "ERR|{}|{}", dump_msk(&msk), quiet_usk(&usks[k])).unwrap(),
                 }
             }
+            // the hint of an existing attribute changed IN PLACE (the structure is a public field of the master key: an
+            // application may replace it by a rebuilt one; done here by patching the hint byte of the serialized structure).
+            // The next update must drop the ML-KEM part of the rights that became classic - or fail and change nothing.
+            "HINT" => {
+                let (d, n) = (tok(f[1]), tok(f[2])); let h: u8 = f[3].parse().unwrap();
+                let b = msk.access_structure.serialize().unwrap().to_vec();
+                let mut r = Rd::new(&b); let _v = r.leb(); let nd = r.leb(); let mut pos = None;
+                for _ in 0..nd {
+                    let dn = r.vec().to_vec(); let _ord = r.leb(); let na = r.leb();
+                    for _ in 0..na { let an = r.vec().to_vec(); let _id = r.leb(); if dn == d.as_bytes() && an == n.as_bytes() { pos = Some(r.p); } let _h = r.leb(); let _s = r.leb(); }
+                }
+                match pos {
+                    Some(p) => { let mut b2 = b.clone(); b2[p] = h; msk.access_structure = cosmian_cover_crypt::AccessStructure::deserialize(&b2).unwrap(); writeln!(out, "OK|{}", dump_msk(&msk)).unwrap(); }
+                    None => writeln!(out, "ERR|{}", dump_msk(&msk)).unwrap(),
+                }
+            }
             // backup / restore of the master key (an old serialized copy replaces the current one)
             "SNAP" => { snaps.push(msk.serialize().unwrap().to_vec()); writeln!(out, "OK|{}", dump_msk(&msk)).unwrap(); }
             "REST" => {
